@@ -54,8 +54,11 @@ def showStatus : Status → String
   | .raised (.labError t) => s!"raised LabError {t}"
 
 /-- value computed by the harness' task bodies -/
-def stdBehave (ctx : Nat) (strict : Nat → Bool) (t : Tid) (vs : List (Option Val)) : Option Val :=
+def noneCode : Nat := 999999
+
+def stdBehave (ctx : Nat) (strict : Nat → Bool) (noneVal : Nat → Bool) (t : Tid) (vs : List (Option Val)) : Option Val :=
   if strict t && vs.any Option.isNone then none
+  else if noneVal t then some noneCode
   else some (1000 * t + ctx + (vs.map (fun o => o.getD 7)).foldl (· + ·) 0)
 
 /-- a second `run_tasks` call on the same objects and storage -/
@@ -63,6 +66,7 @@ structure Second where
   req : List Iid
   bust : Bool
   ctx : Nat
+  cof : Bool
   sched : List Choice
 
 structure Case where
@@ -73,6 +77,8 @@ structure Case where
   nTids : Nat
   nInst : Nat
   strict : Nat → Bool
+  noneVal : Nat → Bool
+  failsAt : Nat → Nat → Bool     -- context value → tid → run() raises
   second : Option Second
 
 def parseInst (s : String) : Option (List (Nat × List Nat)) :=
@@ -112,19 +118,22 @@ def parseCase (parts : List String) : Option Case := do
     ty := fun t => ty.getD t 0
     maxPar := fun T => (mp.getD T none)
     cacheable := fun T => ca.getD T 0 == 1
-    fails := fun t => flag t 1
+    fails := fun t => flag t 1 || (flag t 32 && ctx % 2 == 1)
     dies := fun t => flag t 2
-    behave := stdBehave ctx (fun t => flag t 4) }
+    behave := stdBehave ctx (fun t => flag t 4) (fun t => flag t 8) }
   let mkSched := fun (l : List Nat) => l.map (fun m => ({ finish := fun i => m / (2 ^ i) % 2 == 1 } : Choice))
   let second : Option Second := match get m "req2", get m "bust2", get m "ctx2", get m "sched2" with
     | some r2, some b2, some c2, some s2 =>
       match natList r2, b2.toNat?, c2.toNat?, natList s2 with
-      | some r, some b, some c, some s => some { req := r, bust := b == 1, ctx := c, sched := mkSched s }
+      | some r, some b, some c, some s =>
+        let cof2 := match (get m "cof2").bind String.toNat? with | some x => x == 1 | none => cof == 1
+        some { req := r, bust := b == 1, ctx := c, cof := cof2, sched := mkSched s }
       | _, _, _, _ => none
     | _, _, _, _ => none
   pure { cfg := { backend := be, maxWorkers := mw, contOnFail := cof == 1, bust := bust == 1 },
          p := p, store := pre, sched := mkSched sched,
-         nTids := ty.length, nInst := inst.length, strict := fun t => flag t 4, second := second }
+         nTids := ty.length, nInst := inst.length, strict := fun t => flag t 4, noneVal := fun t => flag t 8,
+         failsAt := fun c t => flag t 1 || (flag t 32 && c % 2 == 1), second := second }
 
 def observeRun (c : Case) (marked0 : List Iid) : String × RS :=
   let rs := run c.cfg c.p c.store (c.nTids + c.nInst + 1) c.sched
@@ -142,14 +151,18 @@ def observeRun (c : Case) (marked0 : List Iid) : String × RS :=
 
 def observe (c : Case) : String :=
   let (o1, rs1) := observeRun c []
-  match c.second, rs1.status with
-  | some s2, .returned _ =>
+  let second (s2 : Second) (store2 : Store) : String :=
     let c2 : Case := { c with
-      cfg := { c.cfg with bust := s2.bust }
-      p := { c.p with requested := s2.req, behave := stdBehave s2.ctx c.strict }
-      store := rs1.store, sched := s2.sched, second := none }
+      cfg := { c.cfg with bust := s2.bust, contOnFail := s2.cof }
+      p := { c.p with requested := s2.req, behave := stdBehave s2.ctx c.strict c.noneVal, fails := c.failsAt s2.ctx }
+      store := store2, sched := s2.sched, second := none }
     let (o2, _) := observeRun c2 (dedup rs1.marked)
     o1 ++ " || " ++ o2
+  match c.second, rs1.status with
+  | some s2, .returned _ => second s2 rs1.store
+  | some s2, .raised (.labError _) =>
+    -- aborted call: the workers still running finish (and save) in the background
+    second s2 (saveAll c.p rs1.ts rs1.running rs1.store)
   | _, _ => o1
 
 def handle (parts : List String) : String :=
